@@ -4,18 +4,10 @@ problem value: {"h", "w", "tr", "td", "cr", "cc"}: tr / td = to_right / to_down 
 (tr[y][x]: cells (y, x), (y, x+1) form a plate; td[y][x]: cells (y, x), (y+1, x)), cr = cond_row = h pairs
 [plus, minus], cc = cond_col = w pairs; a negative clue = none.  Answer arrays: (plus, minus).
 
-cspuz/puzzle/magnets.py imports the optional third-party package `svgwrite` unconditionally (it is only used by
-emit_svg); where the package is not installed an empty stand-in module is registered so that the module - and with
-it the unmodified solve_magnets - can be imported at all."""
-import sys
-import types
-
+cspuz/puzzle/magnets.py needs the optional third-party package `svgwrite` only in emit_svg; since fix 'magnets imports
+svgwrite optionally' the module imports without it (before, solve_magnets could not be imported where the package is
+missing: exhibited by this plug-in as magnets:import)."""
 import c11lib as L
-
-try:
-    import svgwrite  # noqa: F401
-except ImportError:
-    sys.modules["svgwrite"] = types.ModuleType("svgwrite")
 
 NAME = "magnets"
 MODULE = "cspuz.puzzle.magnets"
